@@ -89,11 +89,15 @@ class Refactoring:
         def calculate_to_path(p):
             if p is None:
                 return p
-            p = str(p)
+            p = Path(p)
             for from_, to in renames:
-                if p.startswith(str(from_)):
-                    p = str(to) + p[len(str(from_)):]
-            return Path(p)
+                try:
+                    # Only paths within a renamed folder (or the renamed file
+                    # itself) move, not siblings that share a name prefix.
+                    p = Path(to).joinpath(p.relative_to(from_))
+                except ValueError:
+                    pass
+            return p
 
         renames = self.get_renames()
         return {
